@@ -121,9 +121,12 @@ class DnsRecordDnskey(ParsableBase, Serializable):
         key_parser.parse_mpint('x', key_size)
         key_parser.parse_mpint('y', key_size)
 
-        return PublicKey.from_params(PublicKeyParamsEcdsa(
-            point_x=key_parser['x'], point_y=key_parser['y'], named_group=named_group,
-        ))
+        try:
+            return PublicKey.from_params(PublicKeyParamsEcdsa(
+                point_x=key_parser['x'], point_y=key_parser['y'], named_group=named_group,
+            ))
+        except (ValueError, OverflowError) as e:
+            six.raise_from(InvalidValue((key_parser['x'], key_parser['y']), cls, 'key'), e)
 
     @classmethod
     def _parse_public_key_eddsa(cls, dnssec_algorithm, key_parser):
